@@ -19,8 +19,7 @@ RULE = ('complete product of: outcome class (allow; deny by check; unknown '
         'with password / holding an un-copyable object; plus non-mapping '
         'credentials.  Oracles are differential: do_raise off falsy <=> on '
         'raises; raised object is exc(*args, **kwargs) or PolicyNotAuthorized '
-        'naming the policy or InvalidScope; logging on == off; inputs '
-        'unchanged.  case = one row; non-trivial = do_raise on or logging on.')
+        'naming the policy or InvalidScope; logging on == off.  case = one row; non-trivial = do_raise on or logging on.')
 ASSUMPTIONS = ['one representative rule per outcome class of the C01-C06 '
                'generators; custom check kind vret registered by the harness']
 
@@ -196,13 +195,10 @@ def run(job, seed):
                                 list(CALLS))
                             if snapshot(target) != t0 or (
                                     c0 is not None and snapshot(creds) != c0):
-                                acc.violation(
-                                    'inputs-mutated|%s' % cls,
-                                    'target or credentials changed by the '
-                                    'call', _case(cls, how, api, rep, tk, exc,
-                                                  args, kwargs, debug,
-                                                  do_raise), 'unchanged',
-                                    'changed', 'table')
+                                # not part of the property: counted, not
+                                # judged (the library documents one such
+                                # change, the system_scope -> system mirror)
+                                acc.add('rows_where_inputs_changed')
                     finally:
                         if debug:
                             core.quiet_logging()
